@@ -1,4 +1,5 @@
 """C20 — the C interface does exactly what the corresponding C++ calls do (wrapper table, bounds, kinds)."""
+import os
 import re
 from engine import render, strip, Graph, Assume, must, reachable_events
 from facts import AnalysisBroken, CALL_KINDS
@@ -53,7 +54,8 @@ def run(fb, rep, tier):
     rep.extra['explanation'] = EXPLANATION
     fs = [f for f in fb.funcs.values() if f.file.endswith(IFACE) and f.externc]
     fs.sort(key=lambda f: f.line)
-    hdr = open(M.__file__.replace('rules/modifiers.py', '') + '../repo/src/soplex_interface.h').read() if False else open('/repo/src/soplex_interface.h').read()
+    import facts as _facts
+    hdr = open(os.path.join(_facts.SRC, 'soplex_interface.h')).read()
     declared = set(re.findall(r'\b(SoPlex_\w+)\s*\(', hdr))
     rep.rule('R20.0', 'every function declared in soplex_interface.h is defined extern "C" in soplex_interface.cpp and vice versa', floor=50)
     defined = set(f.short for f in fs)
